@@ -50,6 +50,20 @@ def generate(loader):
         g.spacing = tuple(s.a.tolist())
         g.origin = tuple(o.a.tolist())
         g.direction = tuple(d.a.reshape(-1).tolist())      # flattened row-major, as GetDirection()
+        # constructor: every documented form of the direction argument (flat, rows, ndarray) is stored row-major flat
+        # (float() of the entries prevents symbols here; the flattening order does not depend on the values)
+        dn = [[0.6, -0.8], [0.8, 0.6]] if D == 2 else [[0.0, -1.0, 0.0], [0.6, 0.0, -0.8], [0.8, 0.0, 0.6]]
+        want_flat = tuple(float(v) for r in dn for v in r)
+        M.np = np
+        try:
+            for form, arg in (("flat", list(want_flat)), ("rows", dn), ("tuple-rows", tuple(tuple(r) for r in dn)), ("ndarray", np.array(dn))):
+                gc = M.GridAttrs(size=(5, 7, 4)[:D], origin=(1.0, 2.0, 3.0)[:D], spacing=(0.5, 2.0, 1.5)[:D], direction=arg)
+                if tuple(gc.direction) != want_flat:
+                    raise TraceError(f"GridAttrs(direction=<{form}>) does not store the direction cosines row-major")
+                if tuple(gc.origin) != (1.0, 2.0, 3.0)[:D] or tuple(gc.spacing) != (0.5, 2.0, 1.5)[:D]:
+                    raise TraceError("GridAttrs constructor does not store origin / spacing as given")
+        finally:
+            M.np = _NP()
         ins = [("s", s), ("o", o), ("d", d)]
         T = lift(g.transform)
         Ti = lift(g.inverse_transform)
